@@ -11,7 +11,7 @@ Print Assumptions C15_world_untouched.
 
 (* the returned module is what the in-place call makes of an independent copy *)
 Theorem C15_result_is_in_place_effect_on_copy w i o m m' :
-  in_place_of o = false -> o <> OCopy -> nth_error w i = Some m -> effect m o = Some (Ok m') ->
+  in_place_of o = false -> o <> OCopy -> o <> OToQasm3 -> nth_error w i = Some m -> effect m o = Some (Ok m') ->
   step w i o = (w ++ [m'], OutNew) /\ step [m] 0 (in_place_version o) = ([m'], OutUnit).
 Proof. exact (not_in_place_is_effect_on_copy w i o m m'). Qed.
 Print Assumptions C15_result_is_in_place_effect_on_copy.
